@@ -379,8 +379,20 @@ func genC09(w *bufio.Writer, seed int64, n int, tier string) {
 				}
 				fmt.Fprintf(w, "batch %d\n", k)
 				for j := 0; j < k; j++ {
+					// entries of a batch go through their own size computation in AppendBatch:
+					// aim some of them at the record-format boundaries too (deletes with keys
+					// around Max-13, puts around the FULL/fragmented switch and exact multiples)
+					bigOp := big() && r.Intn(2) == 0
 					if r.Intn(3) == 0 {
-						fmt.Fprintf(w, "d %s\n", genSizedTok(r, false))
+						if bigOp {
+							kl, _ := bigEntry(r, true)
+							fmt.Fprintf(w, "d %s\n", lenTok(r, kl))
+						} else {
+							fmt.Fprintf(w, "d %s\n", genSizedTok(r, false))
+						}
+					} else if bigOp {
+						kl, vl := bigEntry(r, false)
+						fmt.Fprintf(w, "p %s %s\n", lenTok(r, kl), lenTok(r, vl))
 					} else {
 						fmt.Fprintf(w, "p %s %s\n", genSizedTok(r, false), genSizedTok(r, false))
 					}
